@@ -168,6 +168,16 @@ func (st *yamlStyle) factorDoc(doc orderedJSON) (*yaml.Node, any) {
 						base.Content = append(base.Content[:2*pos:2*pos], rest...)
 						baseDen = append(baseDen[:pos:pos], append(orderedJSON{{m[o][0], ov}}, baseDen[pos:]...)...)
 					}
+					if st.rng.Intn(3) == 0 {
+						// a CHAIN of merges: the base itself starts with a merge of an inner base that holds a stale value for one
+						// of the base's own keys - written after its `<<`, the base's own value wins, also for whoever merges the base
+						t := st.rng.Intn(j)
+						inner := &yaml.Node{Kind: yaml.MappingNode, Tag: "!!map", Anchor: name + "i"}
+						inner.Content = append(inner.Content, st.strNode(m[t][0].(string)), st.strNode(fmt.Sprintf("stale-%d", count)))
+						bases.Content = append(bases.Content, inner)
+						denoted = append(denoted, orderedJSON{{m[t][0], fmt.Sprintf("stale-%d", count)}})
+						base.Content = append([]*yaml.Node{{Kind: yaml.ScalarNode, Tag: "!!merge", Value: "<<"}, {Kind: yaml.AliasNode, Alias: inner, Value: name + "i"}}, base.Content...)
+					}
 					bases.Content = append(bases.Content, base)
 					denoted = append(denoted, baseDen)
 					merged := &yaml.Node{Kind: yaml.MappingNode, Tag: "!!map", Style: child.Style}
